@@ -91,6 +91,17 @@ def abi_check(chk, lean_ok):
         parts = line.split()
         if parts[0] == "LAYOUT":
             model[parts[1]] = dict(kv.split("=") for kv in parts[2:] if "=" in kv)
+        elif parts[0] == "ABIDIFF":
+            # a declaration on which Rust, the header and the Dart bindings disagree: the concrete witness of a
+            # failed `header_agrees_with_rust` / `dart_agrees_with_rust` / `structs_agree`
+            what = " ".join(parts[1:3]).rstrip(":")
+            sig = "abidiff:" + what
+            if not any(v.get("signature") == sig for v in chk.violations):
+                path = chk.save_replay("C15-%s.txt" % re.sub(r"[^A-Za-z0-9_]+", "-", what),
+                                       "# C15: the C ABI differs between the Rust definitions, the generated header and the Dart bindings\n"
+                                       "# witness (tables regenerated from /repo by tools/extract_abi.py; `model abi` prints the disagreeing declarations):\n%s\n"
+                                       "# replay: python3 tools/gen.py && lean/.lake/build/bin/model abi | grep ABIDIFF\n" % line[8:])
+                chk.violations.append({"replay": path, "signature": sig, "why": line[8:200]})
         elif parts[0] == "DARTFNS":
             dart = parts[1:]
         elif parts[0] == "RUSTFNS":
